@@ -31,6 +31,9 @@ pub struct RegisteredInstanceInfo {
     pub instance_handle: InstanceHandle,
     pub last_write_time: Option<Time>,
     pub samples: VecDeque<i64>,
+    /// false once unregister_instance was called (the record is kept because its
+    /// samples still count against the resource limits)
+    pub registered: bool,
 }
 
 #[derive(Default)]
@@ -127,6 +130,7 @@ impl<T: RtpsWriter> DataWriterEntity<T> {
                 instance_handle: sample_instance_handle,
                 last_write_time: None,
                 samples: VecDeque::new(),
+                registered: false,
             });
         }
 
@@ -158,6 +162,8 @@ impl<T: RtpsWriter> DataWriterEntity<T> {
         }
 
         instance_info.samples.push_back(change.sequence_number);
+        // a successful write (implicitly) registers the instance
+        instance_info.registered = true;
 
         if let DurationKind::Finite(lifespan_duration) = self.qos.lifespan.duration {
             let duration_until_expired = sample_timestamp - now + lifespan_duration;
@@ -196,7 +202,7 @@ impl<T: RtpsWriter> DataWriterEntity<T> {
         let Some(instance_info) = self
             .registered_instance_info
             .iter_mut()
-            .find(|x| x.instance_handle == instance_handle)
+            .find(|x| x.instance_handle == instance_handle && x.registered)
         else {
             return Err(DdsError::BadParameter);
         };
@@ -246,11 +252,13 @@ impl<T: RtpsWriter> DataWriterEntity<T> {
             .find(|x| x.instance_handle == instance_handle)
         {
             instance_info.last_write_time = Some(timestamp);
+            instance_info.registered = true;
         } else if self.registered_instance_info.len() < self.qos.resource_limits.max_instances {
             self.registered_instance_info.push(RegisteredInstanceInfo {
                 instance_handle,
                 last_write_time: Some(timestamp),
                 samples: VecDeque::new(),
+                registered: true,
             });
         } else {
             return Err(DdsError::OutOfResources);
@@ -282,12 +290,13 @@ impl<T: RtpsWriter> DataWriterEntity<T> {
         let Some(instance_info) = self
             .registered_instance_info
             .iter_mut()
-            .find(|x| x.instance_handle == instance_handle)
+            .find(|x| x.instance_handle == instance_handle && x.registered)
         else {
             return Err(DdsError::BadParameter);
         };
 
         instance_info.last_write_time = None;
+        instance_info.registered = false;
 
         let serialized_key =
             serialize(key_holder_data.as_dynamic_data(), &self.qos.representation)?;
